@@ -28,7 +28,7 @@ open MdModel
 abbrev Span := Nat × Nat
 
 /-- `u8::is_ascii_whitespace`: space, TAB, LF, FF, CR (not VT) -/
-def isAsciiWs (c : UInt8) : Bool := c == 0x20 || c == 0x09 || c == 0x0A || c == 0x0C || c == 0x0D
+def isAsciiWhitespaceU8 (c : UInt8) : Bool := c == 0x20 || c == 0x09 || c == 0x0A || c == 0x0C || c == 0x0D
 
 /-- `iter().position(p)` over `b[i .. i+n]`: the first index whose byte satisfies `p` -/
 def findFwd (b : Bytes) (p : UInt8 → Bool) : Nat → Nat → Option Nat
@@ -58,7 +58,7 @@ def checkRangeInclusive (site : String) (len first last : Nat) : M (Nat × Nat) 
 /-- `LinuxOsStr::trim_ascii_whitespace` [strings.rs 103] on the span `[lo, hi)`:
     first and last non-blank index, `&input[first..=last]`; an all-blank input gives `&input[0..0]`. -/
 def trimAsciiWhitespace (b : Bytes) (lo hi : Nat) : M Span :=
-  match position b (fun c => !isAsciiWs c) lo hi, rposition b (fun c => !isAsciiWs c) lo hi with
+  match position b (fun c => !isAsciiWhitespaceU8 c) lo hi, rposition b (fun c => !isAsciiWhitespaceU8 c) lo hi with
   | some f, some l =>
     checkRangeInclusive "trim_ascii_whitespace: &input[first..=last]" (hi - lo) (f - lo) (l - lo) >>= fun r =>
     pure (lo + r.1, lo + r.2)
